@@ -123,12 +123,14 @@ class Ledger:
         self.baseline = []
         self.audit0 = 0
         self.tap = False
+        self.orphans = 0         # SSLSockets lost inside a wrap_socket() call that raised (closed by the ledger)
 
     # ---- lifecycle ---------------------------------------------------------
     def begin(self, clock=None, tap=False):
         install()
         self.entries = []
         self.by_id = {}
+        self.orphans = 0
         self.clock = clock
         self.tap = tap
         self.baseline = census()
@@ -324,6 +326,31 @@ def install():
 
     ssl.SSLSocket.recv = srecv
     ssl.SSLSocket.send = ssend
+
+    # SSLContext.wrap_socket() that raises (e.g. the peer reset the connection between connect and wrap:
+    # SSLSocket._create probes recv(1) and gets ECONNRESET) has already moved the descriptor into a new SSLSocket
+    # that the caller never receives.  Nobody but the ledger references that object, so it is closed here exactly
+    # as the reference-counting GC would; it is not a socket hio could have closed.
+    orig_wrap = ssl.SSLContext.wrap_socket
+
+    def wrap_socket(self, *pa, **kwa):
+        led = _state["ledger"]
+        n0 = len(led.entries) if led is not None and led.active else None
+        try:
+            return orig_wrap(self, *pa, **kwa)
+        except BaseException:
+            if n0 is not None:
+                for e in led.entries[n0:]:
+                    if e.kind == "wrap" and e.open:
+                        e.role = "orphaned-by-failed-wrap"
+                        led.orphans += 1
+                        try:
+                            e.sock.close()
+                        except Exception:
+                            pass
+            raise
+    wrap_socket.__wrapped__ = orig_wrap
+    ssl.SSLContext.wrap_socket = wrap_socket
 
 
 # --------------------------------------------------------------------------
